@@ -156,12 +156,14 @@ def plan(tier, seed, kf_ids):
                             "well-formed literals and never panics" % (ln, radix, c.alias(s, 8, f)),
                             timeout=2400, inst=c.alias(s, 8, f), bounds="all 128^<=%d ASCII strings" % ln))
     # ---- exact value, 8-bit types, all digits symbolic
-    shapes10 = [(3, 0), (1, 3), (0, 4), (1, 5)] if q else [(1, 0), (2, 0), (3, 0), (1, 1), (1, 2), (1, 3), (0, 3), (0, 4), (1, 4), (0, 5), (1, 5), (2, 4), (3, 3)]
+    shapes10 = [(3, 0), (1, 3), (0, 4)] if q else [(1, 0), (2, 0), (3, 0), (1, 1), (1, 2), (1, 3), (0, 3), (0, 4), (1, 4), (0, 5), (1, 5), (2, 4), (3, 3)]
     for s in ("U", "I"):
-        fr8 = ([0, 1, 4] if s == "U" else [1, 4, 8]) if q else list(range(9))
+        fr8 = ([0, 4] if s == "U" else [4, 8]) if q else list(range(9))
         for f in fr8:
             for (ni, nk) in shapes10:
-                signs = ["", "-"] if (q and (ni, nk) in ((1, 3), (0, 4))) or not q else [""]
+                signs = ["", "-"] if (q and (ni, nk) == (1, 3)) or not q else [""]
+                if q and (ni, nk) == (3, 0) and f != 4:
+                    continue
                 if not q and (ni, nk) == (1, 3):
                     signs.append("+")
                 for sg in signs:
@@ -179,6 +181,8 @@ def plan(tier, seed, kf_ids):
             for radix, shapes in ((16, [(1, 2)] if q else [(2, 0), (1, 2), (0, 3)]), (2, [(4, 5)] if q else [(4, 5), (0, 9)]),
                                   (8, [(1, 3)] if q else [(3, 0), (1, 3), (0, 4)])):
                 for (ni, nk) in shapes:
+                    if q and (s, radix) in (("I", 16), ("U", 2), ("I", 8)):
+                        continue
                     for sg in (["", "-"] if nk and not q else [""]):
                         nm = "c08_r%d_%s_%s%d_%d" % (radix, c.tag(s, 8, f), {"": "p", "-": "m"}[sg], ni, nk)
                         jobs.append(Job(nm, shaped(nm, s, 8, f, radix, sg, ni, nk),
@@ -186,7 +190,7 @@ def plan(tier, seed, kf_ids):
                                         % (radix, sg, ni, nk, c.alias(s, 8, f)), timeout=1800, inst=c.alias(s, 8, f),
                                         bounds="all digit strings of this shape"))
     # 16-bit types: fast path boundary (6 digits) and slow path (7)
-    for s in ("U", "I"):
+    for s in (("U",) if q else ("U", "I")):
         for f in ([8] if q else [0, 8, 16]):
             for (ni, nk) in ([(0, 7)] if q else [(1, 6), (0, 7), (1, 7)]):
                 nm = "c08_dec_%s_p%d_%d" % (c.tag(s, 16, f), ni, nk)
@@ -197,7 +201,7 @@ def plan(tier, seed, kf_ids):
     # ---- tie-anchored literals for every width
     for s in ("U", "I"):
         for w in ((8, 16) if q else (8, 16, 32)):
-            fl = sorted(set([w // 2, w] + ([] if q else [2, w - 1, rnd.randrange(2, w), rnd.randrange(2, w)])))
+            fl = sorted(set(([w // 2] if (w == 8) == (s == "I") else [w]) if q else [w // 2, w, 2, w - 1, rnd.randrange(2, w), rnd.randrange(2, w)]))
             for f in fl:
                 top = (1 << (w - (1 if s == "I" else 0))) - 2
                 rs = [rnd.choice([rnd.randrange(0, top), 0, 1, top - 1, (top // 5) * 2 + 1])] if q else [rnd.randrange(0, top), rnd.choice([0, 1, top - 1, (top // 5) * 1, (top // 5) * 2 + 1])]
@@ -214,7 +218,7 @@ def plan(tier, seed, kf_ids):
                                         "expansion with 3 symbolic digits at fraction position %d (below / equal / above the tie): nearest, ties to even" % (r, r + 1, c.alias(s, w, f), wp),
                                         timeout=1800, inst=c.alias(s, w, f), bounds="1000 literals of %d characters" % len(text)))
     # ---- wide types: concrete literals at the carry into the integer part (128-bit decimal kernel, 64-bit, 32-bit)
-    wide = [("U", 128, 96), ("I", 128, 126), ("U", 64, 40), ("I", 32, 20)] if q else \
+    wide = [] if q else \
            [("U", 128, 96), ("I", 128, 126), ("U", 128, 65), ("I", 128, 100), ("U", 128, 128), ("U", 64, 40), ("I", 64, 62), ("U", 64, 20), ("I", 32, 20), ("U", 32, 31)]
     for (s, w, f) in wide:
         lits = carry_literals(s, w, f, rnd)
@@ -224,7 +228,7 @@ def plan(tier, seed, kf_ids):
                         "and a hair above it, odd and even k): nearest value, ties to even, exact flag; expected values by exact rational "
                         "arithmetic in the driver" % c.alias(s, w, f), timeout=2400, inst=c.alias(s, w, f), bounds="%d concrete literals" % len(lits)))
     # ---- the decimal-fraction kernels, driven directly through the verif_kernels hook
-    for (kfn, D, dec, bn) in (("dec_to_bin_u8", "u16", 3, 8), ("dec_to_bin_u16", "u32", 6, 16)):
+    for (kfn, D, dec, bn) in ((("dec_to_bin_u8", "u16", 3, 8),) if q else (("dec_to_bin_u8", "u16", 3, 8), ("dec_to_bin_u16", "u32", 6, 16))):
         nm = "c08_kernel_%s" % kfn
         jobs.append(Job(nm, "c08_dec_kernel!(%s, %s, %s, %d, %d, div);" % (nm, kfn, D, dec, bn),
                         "%s(val, nbits, Nearest) for EVERY val < 10^%d and every nbits <= %d: Some(RNE(val*2^nbits/10^%d)), or None exactly when that "
@@ -252,6 +256,11 @@ def plan(tier, seed, kf_ids):
         jobs.append(Job(nm, "c08_frac_kernel!(%s, %s, %d, %d, %d, %d);" % (nm, kfn, ln, nlo, bn, ln + 4),
                         "%s(digits, nbits) for EVERY string of %d decimal digits (last one non-zero) and EVERY nbits in %d..=%d: RNE(0.digits * 2^nbits), None "
                         "exactly when that is 2^nbits" % (kfn, ln, nlo, bn), timeout=600, inst=kfn, bounds="all 9*10^%d strings x %d bit counts" % (ln - 1, bn - nlo + 1)))
+    for j in jobs:
+        if "kernel" in j.name:
+            j.prio = 1
+        elif "_m1_3" in j.name or "_p3_0" in j.name:
+            j.prio = 7       # all four forms: 2-4 times the cost of the other shapes
     return {
         "feature": "c08",
         "jobs": jobs,
